@@ -128,7 +128,7 @@ def run_case(case):
         PA = [0]
     if 'PA' in case:     # explicit inputs (replays are independent of the generator)
         PA, PB = [int(x) for x in case['PA']], [int(x) for x in case['PB']]
-        A, B = plist(poly, poly(PA)), plist(poly, poly(PB))
+        A, B = plist(poly, poly(list(PA))), plist(poly, poly(list(PB)))   # NB gfpx strips the list it is given IN PLACE
     a, b = poly(A), poly(B)
     n1, n2 = rng.randint(0, 4), rng.randint(0, 4)
     x0 = rng.randrange(p)
